@@ -68,6 +68,8 @@ func operationsStack.Push
   props C12
   modifies *s
   ensures len(*s) == old(len(*s)) + 1
+  // last in: the pushed operation is the new top
+  ensures (*s)[len(*s) - 1] == op
 
 // ASSUMED (not verified): the stack never holds a nil operation. Push is only
 // ever called with the result of an operation constructor, but stating that
@@ -78,6 +80,9 @@ func operationsStack.Pop
   requires len(*s) > 0
   modifies *s
   ensures len(*s) == old(len(*s)) - 1
+  // first out: what is handed to the interpreter is the old top, and what stays is untouched
+  ensures result == old((*s)[len(*s) - 1])
+  ensures forall k int :: 0 <= k && k < len(*s) ==> (*s)[k] == old((*s)[k])
   assumes result != nil
 
 // operations are immutable records carrying their interpreter closure
